@@ -91,10 +91,11 @@ def run(replay=None):
         ck.notes['simulated_histories'] = len(sim)
         for n, h in enumerate(hs + sim + [{'start': a, 'hist': b} for a, b in LISTED]):
             key_jobs.append((h['start'], h['hist'], seed * 1000003 + n))       # one seeded instantiation per history
-        nw = (14 if thorough else 2) * len(c16_drv.WALLET_KINDS)         # every creation route, seeded witness type and calls
+        # every creation route (quick: once, the first eight twice), seeded witness type and calls
+        nw = 14 * len(c16_drv.WALLET_KINDS) if thorough else len(c16_drv.WALLET_KINDS) + 8
         for i in range(nw):
             wallet_jobs.append((seed % 100000 * 1000 + i, list(c16_drv.WALLET_KINDS[i % len(c16_drv.WALLET_KINDS)]),
-                                c16_drv.gen_wallet_history(rng, rng.randrange(4, 8))))
+                                c16_drv.gen_wallet_history(rng, rng.randrange(3, 7))))
         nd = 12 if thorough else 3
         for i in range(nd):
             for mode in ('key', 'password'):
@@ -126,7 +127,7 @@ def run(replay=None):
         return flat
 
     def drive_wallets():
-        return common.pmap(c16_drv.wallet_history, wallet_jobs, procs=11) if wallet_jobs else []
+        return common.pmap(c16_drv.wallet_history, wallet_jobs, procs=12) if wallet_jobs else []
 
     def drive_db():
         out = {}
